@@ -254,8 +254,15 @@ def run(repo: Repo, rep: Report, tier: str) -> None:
             n_scale += 1
             dv = dmap.get(id(r))
             construct = f"soft output scaling: {unparse(r)} ~ noise variance {v.show()}, distance {dv.show() if dv is not None else '?'}"
+            # sums of unlike terms, and alternatives selected by the *input* (layout / shape conditions: every arm is reachable
+            # within the property's inputs); alternatives selected by a mode parameter the configuration should fix are not
+            added = [m_ for m_ in dg1.mixed if "combines" in m_ or ("alternative paths of `if " in m_ and not any(k in m_ for k in ("noise_var is", "soft_output", "hard", "soft", "self.training", "mode")))]
+            if v.d is None and added:
+                rep.violation("LLR-SCALE", fi, construct, "terms that scale differently with the noise variance are added: the LLR is not proportional to 1/noise_var: " + added[0], node=r)
+                continue
             if v.d is None and dg1.mixed:
-                rep.violation("LLR-SCALE", fi, construct, "terms that scale differently with the noise variance are added: the LLR is not proportional to 1/noise_var: " + dg1.mixed[0], node=r)
+                # alternatives of a branch this configuration does not decide: which one runs is unknown, so no verdict
+                rep.undecided("LLR-SCALE", fi, construct, "control-flow alternatives scale differently with the noise variance and the branch condition is not decided: " + dg1.mixed[0], node=r)
                 continue
             if v.d is None:
                 rep.undecided("LLR-SCALE", fi, construct, "degree in the noise variance not derived", trace=dg1.notes[:4], node=r)
